@@ -82,7 +82,9 @@ def has_or(p):
 
 INT_POOL = [0, 1, 2, 3, 4, 5, 6, 7, 8, 9, 10, 100, 255, 256, 65535, 65536, 2**31 - 2, 2**31 - 1]
 FLT_POOL = [0.0, 0.5, 1.0, 1.5, 2.0, 2.25, 3.0, 4.0, 7.75, 100.125, 16777216.0]
-STR_POOL = [b"", b"a", b"ab", b"abc", b"abd", b"b", b"B", b"z", b"foo", b"foo bar", b"Z" * 30]
+STR_POOL = [b"", b"a", b"ab", b"abc", b"abd", b"b", b"B", b"z", b"foo", b"foo bar", b"Z" * 30,
+            b"a b", b"a  b", b" a", b"a ", b"  ", b"x   y z", b"(a)", b"a,b", b"a=b", b"SELECT", b"a-b", b"1 2", b"<>", b"%_"]
+STR_ALPHABET = b"ab AB z01 ,.()=<>*-_%#!?[]{}+/:@^~|&$"
 
 
 def rnd_val(rng, kind, small=True):
@@ -90,7 +92,13 @@ def rnd_val(rng, kind, small=True):
         return Val("i", rng.choice(INT_POOL[:12]) if small or rng.random() < 0.8 else rng.choice(INT_POOL))
     if kind == "f":
         return Val("f", rng.choice(FLT_POOL[:8]) if small or rng.random() < 0.8 else rng.choice(FLT_POOL))
-    return Val("s", rng.choice(STR_POOL[:9]) if small or rng.random() < 0.85 else rng.choice(STR_POOL))
+    r = rng.random()
+    if r < 0.08:
+        # free-form printable strings (blanks, punctuation, keywords' characters): the literal path must keep them verbatim
+        return Val("s", bytes(rng.choice(STR_ALPHABET) for _ in range(rng.randrange(0, 13))))
+    if r < 0.16:
+        return Val("s", rng.choice(STR_POOL[11:]))
+    return Val("s", rng.choice(STR_POOL[:9]) if small or rng.random() < 0.85 else rng.choice(STR_POOL[:11]))
 
 
 def rnd_conj(rng, types, ncmp, focus=None):
